@@ -58,6 +58,7 @@ EXTRA_scen_c03 := -fno-sanitize=null
 EXTRA_scen_c14 := -fno-sanitize=null
 EXTRA_scen_c15 := -fno-sanitize=null
 EXTRA_scen_c01c := -fno-sanitize=null
+EXTRA_scen_c20 := -fno-sanitize=null
 endif
 EXTRA_scen_c11 += -fno-access-control
 $(B)/harness/%.o: harness/%.cpp sim/prelude.h sim/sim_atomic.h sim/sim.h
